@@ -453,6 +453,80 @@ where
     par(eng, n, chunk, budget, |i, e| f(&cases[i as usize], e));
 }
 
+/// Periodic histories. For every primitive word w over `m` symbols with 1 <= |w| <= maxp: the
+/// history w w w ... cut to `h` events, and every history that differs from it in exactly one
+/// position (any of the other m-1 symbols). These reach what neither the depth-bounded nor the
+/// deviation-bounded enumeration reaches: long histories with *many* resets / rejections /
+/// reconnects in a regular pattern (counters, parities, fill levels, warm-up thresholds).
+pub fn primitive_words(m: usize, maxp: usize) -> Vec<Vec<usize>> {
+    let mut out = Vec::new();
+    for p in 1..=maxp {
+        let mut w = vec![0usize; p];
+        for idx in 0..ipow(m as u64, p) {
+            decode(idx, m as u64, &mut w);
+            let primitive = !(1..p).any(|d| p % d == 0 && (0..p).all(|i| w[i] == w[i % d]));
+            if primitive {
+                out.push(w.clone());
+            }
+        }
+    }
+    out
+}
+pub fn periodic_count(m: usize, maxp: usize, h: usize) -> u64 {
+    primitive_words(m, maxp).len() as u64 * (1 + (h * (m - 1)) as u64)
+}
+pub fn par_periodic<F>(eng: &mut Eng, m: usize, maxp: usize, h: usize, budget: Budget, f: F)
+where
+    F: Fn(&[usize], &mut Eng) -> u64 + Sync,
+{
+    let words = primitive_words(m, maxp);
+    let per = 1 + (h * (m - 1)) as u64;
+    let n = words.len() as u64 * per;
+    let chunk = (n / (threads() as u64 * 32)).clamp(1, 512);
+    par(eng, n, chunk, budget, |i, e| {
+        let w = &words[(i / per) as usize];
+        let mut seq: Vec<usize> = (0..h).map(|k| w[k % w.len()]).collect();
+        let d = i % per;
+        if d > 0 {
+            let pos = ((d - 1) / (m as u64 - 1)) as usize;
+            let alt = ((d - 1) % (m as u64 - 1)) as usize;
+            seq[pos] = if alt >= seq[pos] { alt + 1 } else { alt };
+        }
+        e.executions += 1;
+        e.states += 1;
+        e.max_depth = e.max_depth.max(h as u64);
+        e.transitions += f(&seq, e);
+    });
+}
+
+/// Long periodic histories around integer-width boundaries: every primitive word of length <= maxp
+/// repeated to n events for each n in `lens` (2^8 +- 1, 2^9 +- 1, ...), followed by one final event
+/// of each kind. A counter of the wrong width, a saturating tally or a fill level wraps or
+/// saturates here and nowhere in the short enumerations.
+pub const LONG_LENS: [usize; 6] = [255, 256, 257, 511, 512, 513];
+pub fn long_count(m: usize, maxp: usize, lens: &[usize]) -> u64 {
+    (primitive_words(m, maxp).len() * lens.len() * m) as u64
+}
+pub fn par_long<F>(eng: &mut Eng, m: usize, maxp: usize, lens: &[usize], budget: Budget, f: F)
+where
+    F: Fn(&[usize], &mut Eng) -> u64 + Sync,
+{
+    let words = primitive_words(m, maxp);
+    let n = (words.len() * lens.len() * m) as u64;
+    par(eng, n, 1, budget, |i, e| {
+        let i = i as usize;
+        let last = i % m;
+        let len = lens[(i / m) % lens.len()];
+        let w = &words[i / (m * lens.len())];
+        let mut seq: Vec<usize> = (0..len).map(|k| w[k % w.len()]).collect();
+        seq.push(last);
+        e.executions += 1;
+        e.states += 1;
+        e.max_depth = e.max_depth.max(seq.len() as u64);
+        e.transitions += f(&seq, e);
+    });
+}
+
 /// Timestamps spread over the whole i64 range: neighbours here are further apart than i64::MAX,
 /// so a comparison done through a (wrapping or saturating) difference instead of `<` goes wrong.
 pub const SPREAD: [i64; 8] = [i64::MIN, i64::MIN + 1, -5_000_000_000_000_000_000, -1, 0, 5_000_000_000_000_000_000, i64::MAX - 1, i64::MAX];
